@@ -216,6 +216,7 @@ class Registry:
         self.theorems = []
         self.bounded = []
         self.inline_ok = set()
+        self.interpreted_constructors = set()   # 'module:Class' whose __init__ is interpreted even for concrete arguments
         self.axioms = {}        # name -> callable(*args) -> z3 formula  (trusted, named)
         self.exact_attrs = {}   # (id(owner), attr) -> exact rational a float-valued constant stands for (A2)
 
